@@ -30,7 +30,7 @@ def _install(fs):
             saved[(mod, n)] = mod.__dict__.get(n, None)
     con = RecConsole()
     chk.os, chk.Path, chk.open = fos, FP, fs.open      # (open: whichever way check_file reads, it reads the in-memory tree)
-    chk.get_lexer_for_filename = lambda p: _real_glff(str(p))
+    chk.get_lexer_for_filename = lambda p, *a, **k: _real_glff(str(p), *a, **k)
     chk.lex = lambda lexer, code, fc=True: []
     chk.scan_file = lambda tokens, language: []
     chk.generate_exclude_spec = lambda root: _real_spec(FP(str(root)))
